@@ -318,7 +318,7 @@ def nz_shift(rng, n, amp=3.0, zero_frac=0.0):
     return s
 
 
-def n_particles(ctx, rng, lo=3, hi=36):
+def n_particles(ctx, rng, lo=1, hi=36):
     if ctx.tier == "thorough" and rng.random() < 0.35:
         return int(rng.integers(40, 220))
     return int(rng.integers(lo, hi + 1))
@@ -581,7 +581,7 @@ def run_trim(ctx, case):
 # ---- generator: reference points -------------------------------------------------------------------
 def gen_dist(ctx, rng, cls, i):
     k = int(rng.integers(1, 5)) if cls != "dist_cross_tomo" else int(rng.integers(2, 5))
-    n = n_particles(ctx, rng, lo=2)
+    n = n_particles(ctx, rng)
     df, tl = base_table(rng, n, k)
     c = dy(rng, 0, 70, (n, 3))
     amp = 12.0 if cls == "dist_shifted" else 3.0
